@@ -4,9 +4,9 @@ from .common import *
 SIG  = "static HandledEnum execute ( library_sm & fsm , int region_index , int state , transition_event"
 SIGI = "static HandledEnum execute ( library_sm & fsm , int , int state , transition_event const & evt )"
 TEMPL = ['get_state_id', 'has_pseudo_exit', 'is_exit_state_active', 'get_owner', 'execute_exit', 'at_key',
-         'convert_event_and_execute_entry']
+         'convert_event_and_execute_entry', 'execute_entry']
 TV = {'ROW': 'ROW', 'active_state_switching': 'active_state_switching!'}
-THROW = ['check_guard', 'ROW_guard_call', 'execute_exit', 'ROW_action_call', 'convert_event_and_execute_entry']
+THROW = ['check_guard', 'ROW_guard_call', 'execute_exit', 'ROW_action_call', 'convert_event_and_execute_entry', 'execute_entry']
 xf = back_xform(TEMPL, TV, throwers=THROW)
 PROPS = ['C02', 'C19', 'C09', 'C03', 'C12', 'C01', 'C13']
 
